@@ -445,6 +445,14 @@ impl Story {
             }
         }
 
+        // A pointer that resolves to nothing (e.g. an index past the end of its
+        // container in malformed story data) has no content to add.
+        if should_add_to_stream && current_content_obj.is_none() {
+            return Err(StoryError::InvalidStoryState(
+                "The story points at content that does not exist.".to_owned(),
+            ));
+        }
+
         // Content to add to evaluation stack or the output stream
         if should_add_to_stream {
             // If we're pushing a variable pointer onto the evaluation stack,
